@@ -19,6 +19,10 @@ def vm_cost(req):
     func, args = req
     k = next((a for a in args if isinstance(a, int) and not isinstance(a, bool)), 1)
     strs = [x for a in args if isinstance(a, (list, tuple)) for x in a if isinstance(x, str)]
+    if 'brute' in func or 'kdtree' in func:
+        # all pairs x a quadratic DP on unary nat
+        L = max((len(x) for x in strs), default=0) + 1
+        return len(strs) * len(strs) * L * L // 40
     if 'hash' in func or 'lookupdb' in func or 'ball' in func:
         return sum((40 * (len(x) + 1)) ** min(k, 3) for x in strs)
     return sum(sum(math.comb(len(x), j) for j in range(min(k, len(x)) + 1)) for x in strs)
@@ -43,7 +47,7 @@ def run_cases(ctx, cases, vm_every=0, parallel=True):
         ctx.case(sample=dict(case=c.desc, seqs=c.seqs if c.seqs is None or len(c.seqs) <= 12 else c.seqs[:12] + ['...'],
                              result=[(a, b, str(d)) for a, b, d in expected[:8]]) if nt else None,
                  nontrivial_key=(c.desc, tuple(c.seqs or ()), tuple(c.seqs2 or ())) if nt else None)
-        if vm_every and n % vm_every == 0 and len(str(c.req)) < 1500 and len(exp) < 60 and vm_cost(c.req) < 4000:
+        if vm_every and n % vm_every == 0 and len(str(c.req)) < 1500 and len(exp) < 60 and vm_cost(c.req) < 400:
             ctx.add_vm(c.req[0], c.req[1], exp)
         if ok and impl == expected:
             continue
